@@ -17,7 +17,10 @@ fn main() {
             return net::gen_c01(r);
         }
         if gen == "warm" {
-            return gens::gen_warm(i as u64, r);
+            return gens::gen_warm(i as u64, r, None);
+        }
+        if gen == "warmdr" {
+            return gens::gen_warm(i as u64, r, Some(2));
         }
         let (class, sim) = match gen.as_str() {
             "mix" => gens::gen_mix(r),
